@@ -43,12 +43,12 @@ make -j8 >/dev/null 2>>$log || { echo "BUILD FAILED" >> $log; git checkout -q --
 make check -j8 > $wt/check.out 2>&1
 grep -E "^# (TOTAL|PASS|FAIL)|^FAIL" $wt/check.out >> $log
 pass=$(grep -E "^# PASS" $wt/check.out | head -1 | awk '{print $3}')
-( cd $wt && rm -f $wt/demo_build/demo && bash $wt/demo_build/build.sh ) >> $log 2>&1
+( cd $wt && rm -f $wt/demo_build/demo && ( bash $wt/demo_build/build.sh || ( cd $sd && bash $wt/demo_build/build.sh ) ) ) >> $log 2>&1
 ( cd $wt/demo_build && timeout 300 ./demo >/dev/null 2>&1 ); rc_mod=$?
 echo "demo with patch: exit $rc_mod" >> $log
 cd $wt; git checkout -q -- .; make -j8 >/dev/null 2>&1
 rm -f $wt/demo_build/demo
-( cd $wt && rm -f $wt/demo_build/demo && bash $wt/demo_build/build.sh ) >> $log 2>&1
+( cd $wt && rm -f $wt/demo_build/demo && ( bash $wt/demo_build/build.sh || ( cd $sd && bash $wt/demo_build/build.sh ) ) ) >> $log 2>&1
 ( cd $wt/demo_build && timeout 300 ./demo >/dev/null 2>&1 ); rc_clean=$?
 echo "demo without patch: exit $rc_clean" >> $log
 cp $sd/patch.diff $sd/demo.c $sd/meta.json $out/ 2>/dev/null
